@@ -187,7 +187,7 @@ PROPS = {
         rule="case = one image; non-trivial = not all-zero/all-ones; distinct by content hash",
         assumptions=[],
         min_distinct=dict(quick=12000, thorough=800000),
-        required_counters=["image.wrap-to-self", "image.wrap-to-earlier", "image.category-len-ffff", "image.size-word-large", "image.string-index-past-table", "image.pdo-255x255", "image.blank-zero", "image.blank-ones", "image.next-header-at-top-of-address-space", "image.string-table-count-zero", "init_runs", "query.tx_pdos"],
+        required_counters=["image.wrap-to-self", "image.wrap-to-earlier", "image.category-len-ffff", "image.size-word-large", "image.string-index-past-table", "image.pdo-255x255", "image.blank-zero", "image.blank-ones", "image.next-header-at-top-of-address-space", "image.string-table-count-zero", "image.pdo-sum-near-u16-max", "init_runs", "query.tx_pdos"],
         runs=[native("sii-fuzz-release", "c13", "release"), native("sii-fuzz-debug", "c13", "debug", args={"scale-pct": dict(quick=60, thorough=20)}),
               # hostile images through the same queries under Miri: an out-of-bounds index or an invalid str is a tool report
               native("sii-fuzz-miri", "c13", "miri", args={"cases-total": dict(quick=64, thorough=3200), "case-offset": 1000000, "no-init": dict(quick=1, thorough=0)}, shards=16, timeout=dict(quick=7200, thorough=6 * 3600))],
